@@ -242,3 +242,135 @@ def decorator_caches(mod):
 def reads_external_state(mod, fn) -> bool:
     src = ast.unparse(fn)
     return any(w in src for w in ("read_text", "read_bytes", "open(", "np.load", "numpy.load", "Path(", ".read("))
+
+
+# ------------------------------------------------------------------------------------------------ scope rule
+def _self_attrs(term: P):
+    return {a[2] for a in find_atoms(term, lambda a: a[0] == "attr" and a[1].key() == "self")}
+
+
+def _names(term: P, params):
+    out = set()
+    for a in find_atoms(term, lambda a: a[0] == "name"):
+        if a[1] in params:
+            out.add(a[1])
+    return out
+
+
+def _cache_findings(mod, rel, fx=None):
+    """[(qualname, node, fingerprint, ok, expected, found)] for module-level and decorator caches of one module."""
+    out = []
+    for name, entries in module_caches(mod).items():
+        for qual, key, e in entries:
+            fn = mod.funcs[qual]
+            params = {a.arg for a in fn.args.args + fn.args.kwonlyargs} - {"self", "cls"}
+            deps = {"self." + x for x in _self_attrs(e.value)} | _names(e.value, params)
+            have = {"self." + x for x in _self_attrs(key)} | _names(key, params)
+            ext = reads_external_state(mod, fn)
+            missing = sorted(deps - have)
+            out.append((qual, e.node, f"modcache:{name}", not missing and not ext,
+                        f"a key built from everything the cached value is computed from ({sorted(deps)})",
+                        f"{name}[{str(key)[:80]}] omits {missing}" + ("; the function reads external state" if ext else "")))
+    for qual, fn, txt in decorator_caches(mod):
+        is_method = bool(fn.args.args) and fn.args.args[0].arg in ("self",)
+        ext = reads_external_state(mod, fn)
+        why = []
+        if ext:
+            why.append("the function reads external state (a file) that can change between calls")
+        if is_method:
+            cls = qual.rsplit(".", 1)[0]
+            reads = read_attrs(mod, cls, fn.name)
+            eqfn = mod.funcs.get(f"{cls}.__eq__")
+            hashfn = mod.funcs.get(f"{cls}.__hash__")
+            keyed = set()
+            for f in (eqfn, hashfn):
+                if f is not None:
+                    keyed |= read_attrs(mod, cls, f.name)
+            if eqfn is not None or hashfn is not None:
+                miss = sorted(reads - keyed)
+                if miss:
+                    why.append(f"the cache key (self via __eq__/__hash__) ignores attributes the method reads: {miss[:6]}")
+            else:
+                fx = fx or Effects(None)
+                writers = []
+                for m in mod.methods(cls):
+                    if m.name in ("__init__", fn.name) or is_classmethod(m):
+                        continue
+                    try:
+                        ws = [w for w in Effects(_RepoOf(mod, rel)).method_writes(rel, cls, m.name) if w.attr in reads]
+                    except Exception:
+                        ws = []
+                    if ws:
+                        writers.append(m.name)
+                if writers:
+                    why.append(f"instances are keyed by identity but {writers[:4]} change attributes the method reads")
+        out.append((qual, fn, "deco:" + txt.split("(")[0], not why, "no result cache in front of state that can change", "; ".join(why) or txt))
+    return out
+
+
+class _RepoOf:
+    """Minimal repo facade for Effects when only one module is at hand."""
+
+    def __init__(self, mod, rel):
+        self._m = {rel: mod}
+
+    def module(self, rel):
+        return self._m[rel]
+
+
+_SELFCHECK = '''
+from functools import lru_cache
+_C = {}
+class K:
+    def f(self):
+        key = (self.a,)
+        if key not in _C:
+            _C[key] = g(self.a, self.b)
+        return _C[key]
+    def m(self):
+        if not hasattr(self, "_m"):
+            self._m = h(self.a)
+        return self._m
+    def set_a(self, a):
+        self.a = a
+@lru_cache(maxsize=2)
+def load(path):
+    return open(path).read()
+'''
+
+
+def selfcheck():
+    """The detectors must fire on a tiny embedded positive example on every run (expected count on the real tree is zero)."""
+    from .core import Module
+    import ast as _ast
+    tree = _ast.parse(_SELFCHECK)
+    mod = Module(None, "selfcheck.py", "<selfcheck>", _SELFCHECK, tree)
+    f = _cache_findings(mod, "<selfcheck>")
+    bad = {x[2] for x in f if not x[3]}
+    memos = instance_memos(mod, "K")
+    return {"modcache:_C", "deco:lru_cache"} <= bad and "_m" in memos, (sorted(bad), sorted(memos))
+
+
+def cache_scope(chk, rid, modules=(), classes=(), what="the property's code path"):
+    """Generic G4 obligations for a property: no module-level or decorator cache with an incomplete key in `modules`;
+    every instance memo of `classes` [(rel, cls, allow, attr_types, state)] is dropped by every method that changes what it reads."""
+    ok, info = selfcheck()
+    chk.ob(rid, "sa/memo.py", "selfcheck", "the cache detectors fire on the embedded positive example (module cache, decorator cache, instance memo)",
+           ok, fingerprint="selfcheck", found=str(info), nontrivial=False)
+    for rel in modules:
+        mod = chk.repo.module(rel)
+        f = _cache_findings(mod, rel)
+        for qual, node, fp, good, exp, found in f:
+            chk.ob(rid, rel, qual, "a cache shared between calls/instances is keyed by everything its value depends on", good, node=node,
+                   fingerprint=fp, expected=exp, found=found)
+        chk.ob(rid, rel, "<module>", f"inventory: {len(f)} module-level / decorator caches on {what}", True, fingerprint="inventory",
+               nontrivial=False)
+        chk.saw(rel, "<module caches>")
+    for item in classes:
+        rel, cls = item[0], item[1]
+        allow = item[2] if len(item) > 2 else {}
+        attr_types = item[3] if len(item) > 3 else None
+        state = item[4] if len(item) > 4 else None
+        memos = class_memo_discipline(chk, rid, rel, cls, allow, attr_types, state)
+        chk.ob(rid, rel, cls, f"inventory: instance memos {sorted(memos)} (allow-listed: {sorted(allow)})", True, fingerprint="memo-inventory",
+               nontrivial=False)
